@@ -54,6 +54,9 @@ func ref(r aa.Rule) string {
 		if r.Owner {
 			o = "owner "
 		}
+		if r.Path == "" && len(r.Access) == 0 {
+			return qual(r.Qualifier) + o + "file," // apparmor.d(5): the bare file rule
+		}
 		return qual(r.Qualifier) + o + r.Path + " " + strings.Join(r.Access, "") + opt("-> ", r.Target) + ","
 	case *aa.Link:
 		o, s := "", ""
@@ -100,7 +103,7 @@ func ref(r aa.Rule) string {
 			opt("label=", r.Label) + opt("attr=", r.Attr) + opt("opt=", r.Opt) + peer + ","
 	case *aa.Dbus:
 		if len(r.Access) > 0 && r.Access[0] == "bind" {
-			return qual(r.Qualifier) + "dbus bind" + opt("bus=", r.Bus) + opt("name=", r.Name) + ","
+			return qual(r.Qualifier) + "dbus" + optl("", r.Access) + opt("bus=", r.Bus) + opt("name=", r.Name) + ","
 		}
 		peer := ""
 		switch {
@@ -111,7 +114,7 @@ func ref(r aa.Rule) string {
 		case r.PeerLabel != "":
 			peer = " peer=(label=" + r.PeerLabel + ")"
 		}
-		return qual(r.Qualifier) + "dbus" + optl("", r.Access) + opt("bus=", r.Bus) + opt("path=", r.Path) + opt("interface=", r.Interface) + opt("member=", r.Member) + peer + ","
+		return qual(r.Qualifier) + "dbus" + optl("", r.Access) + opt("bus=", r.Bus) + opt("name=", r.Name) + opt("path=", r.Path) + opt("interface=", r.Interface) + opt("member=", r.Member) + peer + ","
 	case *aa.Rlimit:
 		return "set rlimit " + r.Key + " " + r.Op + " " + r.Value + ","
 	}
